@@ -6,24 +6,6 @@ Require Import Bytes AMap Names State Heap HeapLemmas HeapSpec HeapFrame HeapCop
 From Coq Require Import Lia.
 Local Open Scope nat_scope.
 
-Definition wf_strs (h : heap) (s : hslice) : Prop :=
-  exists a, hget h (sl_arr s) = Some (CStrs a) /\ sl_off s + sl_cap s <= length a /\ sl_len s <= sl_cap s.
-Definition wf_modes (h : heap) (s : hslice) : Prop :=
-  exists a, hget h (sl_arr s) = Some (CModes a) /\ sl_off s + sl_cap s <= length a /\ sl_len s <= sl_cap s.
-Definition wf_user (h : heap) (o : nat) : Prop :=
-  exists u, hget h o = Some (CUser u) /\ wf_strs h (hu_chans u) /\
-            exists p m, hu_perms u = Some p /\ hget h p = Some (CPerms m).
-Definition wf_chan (h : heap) (o : nat) : Prop :=
-  exists c, hget h o = Some (CChan c) /\ wf_strs h (hc_users c) /\ wf_modes h (hm_modes (hc_modes c)).
-
-Record HeapWf (w : world) : Prop := {
-  wf_users : forall o, In o (List.map snd (hs_users (w_st w))) -> wf_user (w_heap w) o;
-  wf_chans : forall o, In o (List.map snd (hs_channels (w_st w))) -> wf_chan (w_heap w) o;
-  (* tracked objects do not share memory: an object is reachable from one root only *)
-  wf_sep : forall r1 r2 x, In r1 (roots (w_st w)) -> In r2 (roots (w_st w)) ->
-             In x (reach (w_heap w) r1) -> In x (reach (w_heap w) r2) -> r1 = r2
-}.
-
 (* ---- list facts ---- *)
 
 Lemma seg_write_length {A} (a : list A) off l : off + length l <= length a -> length (seg_write a off l) = length a.
